@@ -102,7 +102,7 @@ class Probe:
         return False
 
 
-def run_one(gname, n, cap, lazy, k, chooser, storage, pool=False):
+def run_one(gname, n, cap, lazy, k, chooser, storage, pool=False, loaded=False):
     spec = graph(gname, n)
     if pool:
         # computations go through the worker pool (lazy mode is then switched off by the processor even if it
@@ -114,7 +114,22 @@ def run_one(gname, n, cap, lazy, k, chooser, storage, pool=False):
     probe.lazy = lazy and not pool
     probe.required = {"top"} | {d for p in spec["plugins"] for d in p["deps"]}
     out = {}
-    d = hrun.mktemp("c13-") if storage else None
+    d = hrun.mktemp("c13-") if (storage or loaded) else None
+    reads = {"n": 0}
+    orig_read = strax.FileSytemBackend._read_chunk
+    if loaded:
+        spec["sources"][0]["save_when"] = "ALWAYS"
+        spec["sources"][0]["rechunk_on_save"] = False
+        # the source is not computed but loaded from storage: make it first (outside the scheduler), then count
+        # how many of its chunk files the pipeline reads
+        with common.quiet():
+            hrun.make_context(spec, d, {"processor": "single_thread"}).make("0", "ev", save=("ev",), progress_bar=False)
+
+        def counting_read(backend, dirname, chunk_info, dtype, compressor):
+            reads["n"] += 1
+            return orig_read(backend, dirname, chunk_info, dtype, compressor)
+
+        strax.FileSytemBackend._read_chunk = counting_read
     sched = coop.Sched(chooser=chooser, max_steps=400000)
     orig_init = tmb.ThreadedMailboxProcessor.__init__
     orig_heapq = smb.heapq
@@ -166,7 +181,7 @@ def run_one(gname, n, cap, lazy, k, chooser, storage, pool=False):
                 out["deadlock"] = str(e)
                 out["quiescent"] = False
             evs = hp.events()
-            out["source_calls"] = sum(1 for e in evs if e.get("src"))
+            out["source_calls"] = reads["n"] if loaded else sum(1 for e in evs if e.get("src"))
             out["clock"] = sched.clock
             out["steps"] = sched.steps
             out["sig"] = sched.signature()
@@ -180,6 +195,7 @@ def run_one(gname, n, cap, lazy, k, chooser, storage, pool=False):
         left = sched.join_real(120.0)
         out["stuck_after_abort"] = left
     finally:
+        strax.FileSytemBackend._read_chunk = orig_read
         tmb.ThreadedMailboxProcessor.__init__ = orig_init
         smb.heapq = orig_heapq
         hp._record = orig_record
@@ -225,6 +241,11 @@ def configs():
         for cap in (1, 2, 4):
             for lazy in (True, False):
                 cfgs.append({"graph": g, "capacity": cap, "lazy": lazy, "k": 2, "pool": True})
+    # the source data is loaded from storage (the loader is the producer), with and without a worker pool
+    for cap in (1, 3):
+        for lazy in (True, False):
+            for pool in (False, True):
+                cfgs.append({"graph": "chain", "capacity": cap, "lazy": lazy, "k": 2, "pool": pool, "loaded": True})
     return cfgs
 
 
@@ -251,7 +272,7 @@ def run_unit(u):
 
         def one(n, chooser, label):
             cfg = dict(base, n=n, schedule=label)
-            out = run_one(base["graph"], n, base["capacity"], base["lazy"], base["k"], chooser, storage, pool=base.get("pool", False))
+            out = run_one(base["graph"], n, base["capacity"], base["lazy"], base["k"], chooser, storage, pool=base.get("pool", False), loaded=base.get("loaded", False))
             res["evaluations"] += 1
             cnt["scheduling_points"] = cnt.get("scheduling_points", 0) + out["steps"]
             if out["quiescent"]:
@@ -290,7 +311,7 @@ def replay(case):
     cfg = case["cfg"]
     storage = cfg["graph"] in ("chain_savers", "multi_saved")
     out = run_one(cfg["graph"], cfg.get("n", 60), cfg["capacity"], cfg["lazy"], cfg["k"],
-                  coop.ReplayChooser(case.get("choices", [])), storage, pool=cfg.get("pool", False))
+                  coop.ReplayChooser(case.get("choices", [])), storage, pool=cfg.get("pool", False), loaded=cfg.get("loaded", False))
     return [{"sig": {"kind": k}, "what": t, "case": case} for k, t in judge(cfg, out)]
 
 
